@@ -33,6 +33,7 @@ Record InvW (Dp Dc : list N) (s : state) : Prop := {
   I_b_hi : forall a n, In (a, n) (batched s) -> n < get_pn s a;
   I_b_lo : forall a n, ~ In a Dc -> In (a, n) (batched s) -> get_cn s a <= n;
   I_b_down : forall a n, In (a, n) (batched s) -> get_cn s a < n -> In (a, n - 1) (batched s);
+  I_b_item : forall sl, In sl (batched s) -> item_at s sl <> None;
   I_pnbs : len (live_unbatched s Dc) <= pnbs s;
   I_arr : forall sl, alookup slot_eqb sl (arrival s) <> None <-> item_at s sl <> None
 }.
@@ -55,6 +56,7 @@ Proof.
   - intros. split; [tauto|]. intros [t [H _]]. discriminate.
   - exact I.
   - intros a n _ H. exfalso. apply H. reflexivity.
+  - tauto.
   - tauto.
   - tauto.
   - tauto.
@@ -239,6 +241,7 @@ Section Promote.
     - intros b n Hin. specialize (Hpn_le b). pose proof (I_b_hi _ _ _ I b n Hin). lia.
     - exact (I_b_lo _ _ _ I).
     - exact (I_b_down _ _ _ I).
+    - exact (I_b_item _ _ _ I).
     - unfold live_unbatched.
       cbn [pnbs priority promote_acct set_pnonce set_parking set_pnbs set_priority].
       fold run. pose proof (fold_promote_filter (ub_pred s Dc) s a run (priority s)) as Hf.
